@@ -5,7 +5,7 @@ matrix_core_A proves in unit matrix_A (the header `+` lines are copied verbatim;
 `generate()` is also called by vx/bridges.py on every run: a matrix_min_A that is not the derived text decides nothing."""
 import re, os
 ROOT = os.path.dirname(os.path.dirname(os.path.abspath(__file__)))
-KEEP = ['nrows', 'ncols', 'from_storage', 'zeros']
+KEEP = ['nrows', 'ncols', 'from_storage', 'zeros', 'diagonal']
 def headers_only(blk, keep=None):
     res = []; k = 0
     while k < len(blk) and not re.match(r"^ {5}pub fn (\w+)", blk[k]):
